@@ -1,6 +1,10 @@
 pub mod c01;
 pub mod c02;
 pub mod c03;
+pub mod c04;
+pub mod c05;
+pub mod c07;
+pub mod c08;
 pub mod c16;
 
 use crate::{
@@ -14,6 +18,10 @@ pub fn cells_of(prop: &str, tier: Tier) -> Option<(Vec<CellPlan>, &'static str)>
         "C01" => (c01::cells(tier), c01::RULE),
         "C02" => (c02::cells(tier), c02::RULE),
         "C03" => (c03::cells(tier), c03::RULE),
+        "C04" => (c04::cells(tier), c04::RULE),
+        "C05" => (c05::cells(tier), c05::RULE),
+        "C07" => (c07::cells(tier), c07::RULE),
+        "C08" => (c08::cells(tier), c08::RULE),
         _ => return None,
     })
 }
